@@ -285,6 +285,12 @@ func (w *world) deterministic(n nodes.Node, depth int) bool {
 	if strings.Contains(k, "nodes/experimental.") || strings.Contains(k, "formats/gltf.") || depth > 200 {
 		return false
 	}
+	// file readers fed with generated bytes: a header count taken from
+	// arbitrary bytes makes some of them allocate tens of gigabytes (that
+	// is not a C12 matter, but it kills the worker)
+	if strings.Contains(k, ".ReadNodeData") || strings.Contains(k, ".ReadPointsNodeData") || strings.Contains(k, ".ReadReconstructionNodeData") {
+		return false
+	}
 	for _, d := range n.Dependencies() {
 		if !w.deterministic(d.Dependency(), depth+1) {
 			return false
